@@ -33,11 +33,13 @@ IsNested(Blocks, b) == \* st.Nested: some proper ancestor is a function
       Anc(x) == IF x = 0 THEN FALSE ELSE IF Blocks[x].type = "function" THEN TRUE ELSE Anc(Blocks[x].parent)
   IN Anc(Blocks[b].parent)
 \* AddDef: a `global n` anywhere also sets DefGlobal on the module block's symbol
+\* (TLCEval: TLC evaluates [x \in S |-> e] lazily and re-evaluates e at every application; the
+\* program tables are forced once)
 WithModuleGlobals(raw) ==
-  [i \in 1..Len(raw) |->
-     IF i = 1 THEN [raw[1] EXCEPT !.flags = [n \in Names |->
-                       IF \E j \in 1..Len(raw) : "G" \in raw[j].flags[n] THEN @[n] \cup {"G"} ELSE @[n]]]
-     ELSE raw[i]]
+  TLCEval([i \in 1..Len(raw) |->
+     IF i = 1 THEN [raw[1] EXCEPT !.flags = TLCEval([n \in Names |->
+                       IF \E j \in 1..Len(raw) : "G" \in raw[j].flags[n] THEN @[n] \cup {"G"} ELSE @[n]])]
+     ELSE raw[i]])
 
 \* ---- AnalyzeName: one iteration of `for name, v := range st.Symbols`; s is the loop state ----
 \* s = [scopes, local, global, bound, free, err, stfree]; bound/free/global are the (copied) maps
